@@ -92,6 +92,45 @@ theorem readImmHeader_immHeader (v m : Int) (rest : Bytes) (hv : 0 ≤ v) (hv2 :
   rw [List.take_left' hl12, hu]
   simp
 
+theorem fromMutable_nodeid {b : Bytes} {l : Lease} (h : fromMutable b = some l) :
+    ∃ nid, l.nodeid = some nid ∧ nid.length = 20 := by
+  have hb92 : b.length = 92 := by
+    by_cases h' : b.length = 92
+    · exact h'
+    · rw [(fromMutable_none_iff b).mpr h'] at h; simp at h
+  simp only [fromMutable, unpack, hb92, size, mutLeaseFields, Field.size, ↓reduceIte, unpackFields,
+    unpackField, Option.some.injEq] at h
+  subst h
+  exact ⟨_, rfl, by simp; omega⟩
+
+/-- **the immutable lease decoder accepts exactly the image of the encoder** (on in-range leases) -/
+theorem fromImmutable_iff (b : Bytes) (l : Lease) :
+    fromImmutable b = some l ↔ (toImmutable l = some b ∧ LeaseFits l ∧ l.nodeid = none) := by
+  constructor
+  · exact toImmutable_fromImmutable b l
+  · rintro ⟨hp, hfit, hn⟩
+    obtain ⟨b', hb', _, hd⟩ := fromImmutable_toImmutable l hfit
+    rw [hp] at hb'
+    simp only [Option.some.injEq] at hb'
+    subst hb'
+    rw [hd]
+    cases l
+    simp_all
+
+/-- **the mutable lease decoder accepts exactly the image of the encoder** -/
+theorem fromMutable_iff (b : Bytes) (l : Lease) :
+    fromMutable b = some l ↔
+      (toMutable l = some b ∧ LeaseFits l ∧ ∃ nid, l.nodeid = some nid ∧ nid.length = 20) := by
+  constructor
+  · intro h
+    exact ⟨(toMutable_fromMutable b l h).1, (toMutable_fromMutable b l h).2, fromMutable_nodeid h⟩
+  · rintro ⟨hp, hfit, nid, hn, hl⟩
+    obtain ⟨b', hb', _, hd⟩ := fromMutable_toMutable l nid hfit hn hl
+    rw [hp] at hb'
+    simp only [Option.some.injEq] at hb'
+    subst hb'
+    exact hd
+
 theorem magic_lengths : Tahoe.Generated.Encodings.mut_MAGIC_v1.length = 32 ∧
     Tahoe.Generated.Encodings.mut_MAGIC_v2.length = 32 ∧
     Tahoe.Generated.Encodings.mut_MAGIC_v1 ≠ Tahoe.Generated.Encodings.mut_MAGIC_v2 := by decide
